@@ -29,12 +29,17 @@ import (
 const c04sr = "pkg/object/serviceregistry"
 
 func c04Watch(c *core.Ctx, info *c04Info) {
-	f := fn(c, c04pkg, "ServerPool", "watchServers")
-	if f == nil {
+	if info.roles.watch == nil {
+		c.Errorf("R-C04-7: anchor: no (or more than one) ServerPool method talks to the service registry (watchServers)")
 		return
 	}
-	cons := fname(c04pkg, "ServerPool", "watchServers")
-	use := "(*" + c04pkg + ".ServerPool).useService"
+	f := info.roles.watch.f
+	c.Count("functions_analysed", 1)
+	cons := info.roles.watch.cons()
+	if info.roles.apply == nil {
+		return // reported by c04Discovery
+	}
+	applyObj := info.roles.apply.obj
 
 	// channels obtained from ServiceWatcher.Watch(): the call itself or a local assigned from it
 	watchChans := map[types.Object]bool{}
@@ -189,7 +194,12 @@ func c04Watch(c *core.Ctx, info *c04Info) {
 		}
 	}
 	// every received report is applied with the received event
-	applies := callsTo(lf, w.clause, false, use)
+	var applies []*ast.CallExpr
+	for _, call := range calls(w.clause, false) {
+		if lf.Callee(call) == types.Object(applyObj) {
+			applies = append(applies, call)
+		}
+	}
 	isApply := map[*ast.CallExpr]bool{}
 	for _, a := range applies {
 		usesEvent := false
